@@ -688,7 +688,17 @@ fn compress_fragment_two_pass_impl<AllocHT: alloc::Allocator<HuffmanTree>>(
                 &mut num_commands,
             );
         }
-        if ShouldCompress(&base_ip[input_index..], block_size, num_literals) {
+        let should_compress = ShouldCompress(&base_ip[input_index..], block_size, num_literals);
+        #[cfg(brotli_verif)]
+        verif_hooks::record_block(
+            input_index,
+            block_size,
+            should_compress,
+            &command_buf[..num_commands],
+            &literal_buf[..num_literals],
+            *storage_ix,
+        );
+        if should_compress {
             store_meta_block_header(block_size, false, storage_ix, storage);
             BrotliWriteBits(13usize, 0, storage_ix, storage);
             StoreCommands(
@@ -938,5 +948,141 @@ pub(crate) fn compress_fragment_two_pass<AllocHT: alloc::Allocator<HuffmanTree>>
         BrotliWriteBits(1, 1, storage_ix, storage);
         BrotliWriteBits(1, 1, storage_ix, storage);
         *storage_ix = storage_ix.wrapping_add(7u32 as usize) & !7u32 as usize;
+    }
+}
+
+/// Verification hooks (compiled only with `--cfg brotli_verif`): a thread-local log of what
+/// `compress_fragment_two_pass_impl` decided per block (the command / literal buffers produced by
+/// `CreateCommands`, the `ShouldCompress` answer, the bit position) and thin public wrappers
+/// around the private helpers, so that an external harness can compare them with an executable
+/// model.  Recording is off until `start()` is called on the thread.  No behaviour of the crate
+/// depends on it.
+#[cfg(brotli_verif)]
+pub mod verif_hooks {
+    use super::*;
+    use std::cell::RefCell;
+    use std::vec::Vec;
+
+    #[derive(Clone, Debug, Default)]
+    pub struct BlockEvent {
+        pub input_index: usize,
+        pub block_size: usize,
+        pub should_compress: bool,
+        pub commands: Vec<u32>,
+        pub literals: Vec<u8>,
+        pub storage_ix: usize,
+    }
+
+    thread_local! {
+        static EVENTS: RefCell<Option<Vec<BlockEvent>>> = RefCell::new(None);
+    }
+
+    pub fn start() {
+        EVENTS.with(|e| *e.borrow_mut() = Some(Vec::new()));
+    }
+
+    pub fn take() -> Vec<BlockEvent> {
+        EVENTS.with(|e| e.borrow_mut().take().unwrap_or_default())
+    }
+
+    pub(super) fn record_block(
+        input_index: usize,
+        block_size: usize,
+        should_compress: bool,
+        commands: &[u32],
+        literals: &[u8],
+        storage_ix: usize,
+    ) {
+        EVENTS.with(|e| {
+            if let Some(v) = e.borrow_mut().as_mut() {
+                v.push(BlockEvent {
+                    input_index,
+                    block_size,
+                    should_compress,
+                    commands: commands.to_vec(),
+                    literals: literals.to_vec(),
+                    storage_ix,
+                });
+            }
+        });
+    }
+
+    /// `CreateCommands`; returns (num_literals, num_commands)
+    pub fn create_commands(
+        input_index: usize,
+        block_size: usize,
+        input_size: usize,
+        base_ip: &[u8],
+        table: &mut [i32],
+        table_bits: usize,
+        min_match: usize,
+        literal_buf: &mut [u8],
+        command_buf: &mut [u32],
+    ) -> (usize, usize) {
+        let mut num_literals = 0usize;
+        let mut num_commands = 0usize;
+        let mut literals = &mut literal_buf[..];
+        let mut commands = &mut command_buf[..];
+        CreateCommands(
+            input_index,
+            block_size,
+            input_size,
+            base_ip,
+            table,
+            table_bits,
+            min_match,
+            &mut literals,
+            &mut num_literals,
+            &mut commands,
+            &mut num_commands,
+        );
+        (num_literals, num_commands)
+    }
+
+    pub fn should_compress(input: &[u8], input_size: usize, num_literals: usize) -> bool {
+        ShouldCompress(input, input_size, num_literals)
+    }
+
+    pub fn store_commands<AllocHT: alloc::Allocator<HuffmanTree>>(
+        mht: &mut AllocHT,
+        literals: &[u8],
+        num_literals: usize,
+        commands: &[u32],
+        num_commands: usize,
+        storage_ix: &mut usize,
+        storage: &mut [u8],
+    ) {
+        StoreCommands(
+            mht,
+            literals,
+            num_literals,
+            commands,
+            num_commands,
+            storage_ix,
+            storage,
+        )
+    }
+
+    pub fn build_and_store_command_prefix_code(
+        histogram: &[u32],
+        depth: &mut [u8],
+        bits: &mut [u16],
+        storage_ix: &mut usize,
+        storage: &mut [u8],
+    ) {
+        BuildAndStoreCommandPrefixCode(histogram, depth, bits, storage_ix, storage)
+    }
+
+    pub fn emit_uncompressed_meta_block(
+        input: &[u8],
+        input_size: usize,
+        storage_ix: &mut usize,
+        storage: &mut [u8],
+    ) {
+        EmitUncompressedMetaBlock(input, input_size, storage_ix, storage)
+    }
+
+    pub fn rewind_bit_position(new_storage_ix: usize, storage_ix: &mut usize, storage: &mut [u8]) {
+        RewindBitPosition(new_storage_ix, storage_ix, storage)
     }
 }
